@@ -1,4 +1,5 @@
 import GoPlugin.Props.C18
+import GoPlugin.Props.C20
 import GoPlugin.Generated.Facts
 /-
 C18 instantiated at the facts extracted from the current source (tie T-A): the
@@ -49,5 +50,13 @@ theorem holds_kill_removes_own_dir (sharedCfg : Bool) : killRemovesOwnDir Facts.
 
 theorem holds_no_dir_without_runner : dirLeftWithoutRunner Facts.resources = false :=
   Props.C18.no_dir_without_runner _ (by decide)
+
+/-- the host's broker send loop (go-site `brokerCliSend`) is never left blocked on the reply it owes a `Send`: whenever it
+holds a request, the caller of that `Send` is still there to take the reply (C20's reply-channel protocol at the host
+streamer's facts) — a `Send` that gave up waiting would leave that goroutine behind after `Kill` -/
+theorem holds_send_loop_never_left_holding (s : ReplyChan.State) (h : ReplyChan.Reachable Facts.replyChanClient s)
+    (i : Nat) (hw : s.worker = .holding i) : s.closed i = false ∧ s.pc i = .waiting :=
+  let r := Props.C20.reply_always_deliverable _ (by decide) s h i hw
+  ⟨r.1, r.2.1⟩
 
 end GoPlugin.Instance.C18
